@@ -430,6 +430,15 @@ def oracle_c17(obs: Obs):
         elif ev[0] == 'close':
             if obs.outcome[0] == 'return' and ev[1]:
                 out.append(('leak-at-return', f'runner still holds results {ev[1]} when run_tasks returns'))
+    # capture: a requested task that finished successfully is in the returned dict (its result was
+    # taken for the return value before it was released)
+    if obs.outcome[0] == 'return':
+        rk = getattr(obs, 'returned_keys', None)      # real-backend runs report the keys of the returned dict
+        got = {idx.get(k) for k in rk} if rk is not None else {idx.get(U.tkey(k)) for k in obs.outcome[1]}
+        for i, _ in cfg.requested:
+            k = (spec.types[i], spec.labels[i])
+            if i in ref.value and i not in got and any(ev[0] == 'yield' and ev[1] == k and ev[2] == 'ok' for ev in obs.events):
+                out.append(('not-captured', f'requested node {i} {k} finished successfully but its result was released without being captured for the return value'))
     # a dependent that could not read a successfully finished dependency = released too early
     for ev in obs.world:
         if ev[0] == 'read' and ev[3] == 'ERR':
